@@ -46,7 +46,7 @@ def gcase(r):
 
 
 def replay_of(r, oi=None, msg=None):
-    if r["k"] == "conc":
+    if r["k"] in ("conc", "race"):
         return dict(r, monitor=msg)
     d = {"kind": r["k"], "history_index": r["idx"]}
     if r["k"] == "hist":
@@ -61,7 +61,7 @@ def replay_of(r, oi=None, msg=None):
 
 
 def mon_key(m):
-    for pat, k in (("blocked", "blocked"), ("did not return", "blocked"), ("did not take", "blocked"), ("although it was already forwarded", "window"), ("forwarded twice at the same instant", "window"),
+    for pat, k in (("blocked", "blocked"), ("did not return within 3 s", "post-race-stalled"), ("concurrent posts", "post-race"), ("did not return", "blocked"), ("did not take", "blocked"), ("although it was already forwarded", "window"), ("forwarded twice at the same instant", "window"),
                    ("not forwarded", "not-forwarded-again"), ("names another chain", "wrong-chain"), ("does not name", "wrong-chain"),
                    ("full queue", "post-full"), ("queue with room", "post-room"), ("purge ticker", "ticker")):
         if pat in m:
@@ -81,6 +81,11 @@ def run(ctx):
     conc = [r for r in core.read_jsonl(trace2) if r.get("k") == "conc"]
     if rc2 != 0 or not conc:
         ctx.problem("correspondence", "go harness C17 (concurrent schedules)", out2[-1500:])
+    rc3, out3, trace3 = core.harness_pkg(ctx, "guardiand_reobs", "^TestVerifC17PostRace$", timeout=1800)
+    races = [r for r in core.read_jsonl(trace3) if r.get("k") == "race"]
+    if rc3 != 0 or not races:
+        ctx.problem("correspondence", "go harness C17 (concurrent posts)", out3[-1500:])
+    conc = conc + races
     if "DATA RACE" in out or "DATA RACE" in out2:
         ctx.problem("monitor", "the race detector reports a data race in the dispatcher", (out + out2)[(out + out2).index("DATA RACE") - 50:][:1500], concrete=True,
                     replay={"race_report": (out + out2)[(out + out2).index("DATA RACE") - 50:][:3000]}, key="race")
@@ -91,6 +96,10 @@ def run(ctx):
         return
     hists = [r for r in rows if r["k"] == "hist"]
     rows = rows + conc
+    races = [r for r in conc if r["k"] == "race"]
+    conc = [r for r in conc if r["k"] == "conc"]
+    rows = rows + races
+    ctx.cov["concurrent_posts"] = [{k: v for k, v in r.items() if k != "mon"} for r in races]
     ctx.cov["concurrent_runs"] = {"runs": len(conc), "epochs": sum(r["epochs"] for r in conc), "requests_sent": sum(r["sent"] for r in conc),
                                   "delivered": sum(r["delivered"] for r in conc), "epochs_with_slow_watchers": sum(r["epochs_with_slow_watchers"] for r in conc),
                                   "max_deliveries_of_one_key": max([r["max_deliveries_of_one_key"] for r in conc] or [0]), "race_detector": ctx.tier == "thorough"}
